@@ -62,6 +62,18 @@ template<typename T, typename Maker> struct QuantFam {
     }
   }
   static const bool HAS_MERGE_REF = true, HAS_MERGE_MOVE = true, HAS_RESET = false, HAS_ROUNDTRIP = true;
+  // x.merge(x): the sketch then summarises its stream twice
+  static const int SELF_MERGE = SM_DOUBLES;
+  static SelfMergeFacts self_merge_facts(const Obj& o, const Cfg&) {
+    SelfMergeFacts f;
+    double w = 0;
+    const auto e = o.end();
+    for (auto it = o.begin(); it != e; ++it) { auto p = *it; w += static_cast<double>(p.second); }
+    f.doubles = {static_cast<double>(o.get_n()), w};
+    f.same = "k=" + std::to_string(o.get_k());
+    if (!o.is_empty()) f.same += " min=" + IK::show(o.get_min_item()) + " max=" + IK::show(o.get_max_item());
+    return f;
+  }
   static void merge_ref(Obj& d, const Obj& s, const Cfg&) { d.merge(s); }
   static void merge_move(Obj& d, Obj&& s, const Cfg&) { d.merge(std::move(s)); }
   static void reset(Obj&, const Cfg&) {}
